@@ -104,13 +104,13 @@ theorem step_vinv (st : LexSt) (hv : VInv st) (c : Char) : VInv (step st c) := b
       rw [e]; exact stepNormal_vinv { st with mode := .normal } rfl (hv.2 (by simp [hm])) c
   | cmp a =>
     by_cases hmc : isMultiCmp a c = true
-    · have e : step st c = { st.push ⟨[a, c], .opInfix, .logical⟩ with mode := .normal } := by
+    · have e : step st c = { st.push ⟨[a, c], .opInfix, .logical, .none⟩ with mode := .normal } := by
         simp [step, hm, hmc]
       rw [e]; exact ⟨by simp, fun _ => hv.2 (by simp [hm])⟩
-    · have e : step st c = stepNormal { st.push ⟨[a], .opInfix, .nothing⟩ with mode := .normal } c := by
+    · have e : step st c = stepNormal { st.push ⟨[a], .opInfix, .nothing, .none⟩ with mode := .normal } c := by
         simp [step, hm, hmc]
       rw [e]
-      exact stepNormal_vinv { st.push ⟨[a], .opInfix, .nothing⟩ with mode := .normal } rfl (hv.2 (by simp [hm])) c
+      exact stepNormal_vinv { st.push ⟨[a], .opInfix, .nothing, .none⟩ with mode := .normal } rfl (hv.2 (by simp [hm])) c
   | str =>
     by_cases hc : c = '"'
     · have e : step st c = { st with mode := .strQ } := by simp [step, hm, hc]
@@ -122,11 +122,11 @@ theorem step_vinv (st : LexSt) (hv : VInv st) (c : Char) : VInv (step st c) := b
     · have e : step st c = { st with value := st.value ++ ['"'], mode := .str } := by simp [step, hm, hc]
       rw [e]; exact ⟨by simp, by simp⟩
     · have e : step st c = stepNormal
-          { st with toks := st.toks ++ [⟨st.value, .operand, .text⟩], value := [], mode := .normal } c := by
+          { st with toks := st.toks ++ [⟨st.value, .operand, .text, .none⟩], value := [], mode := .normal } c := by
         simp [step, hm, hc]
       rw [e]
       exact stepNormal_vinv
-        { st with toks := st.toks ++ [⟨st.value, .operand, .text⟩], value := [], mode := .normal } rfl notSign_nil c
+        { st with toks := st.toks ++ [⟨st.value, .operand, .text, .none⟩], value := [], mode := .normal } rfl notSign_nil c
   | path =>
     have hne : st.value ≠ [] := hv.1 (Or.inl hm)
     by_cases hc : c = '\''
@@ -153,7 +153,7 @@ theorem step_vinv (st : LexSt) (hv : VInv st) (c : Char) : VInv (step st c) := b
   | error =>
     have hne : st.value ≠ [] := hv.1 (Or.inr (Or.inr (Or.inr hm)))
     by_cases hx : st.value ++ [c] ∈ errors
-    · have e : step st c = { st with toks := st.toks ++ [⟨st.value ++ [c], .operand, .error⟩], value := [], mode := .normal } := by
+    · have e : step st c = { st with toks := st.toks ++ [⟨st.value ++ [c], .operand, .error, .none⟩], value := [], mode := .normal } := by
         simp [step, hm, hx]
       rw [e]; exact vinv_of_empty _ rfl (by simp)
     · have e : step st c = { st with value := st.value ++ [c] } := by simp [step, hm, hx]
